@@ -546,6 +546,14 @@ def mkLeafType (env : Env) (p : Props) : Except Err (CType × Option String × L
   let units := match p.units with | some u => some u | none => tr.units
   .ok (tr.typ, units, match tr.dflt with | some d => [d] | none => [])
 
+/-- sibling list a parsed statement ends up in (a `uses` is handled where it stands, among the data nodes) -/
+def PNode.cls : PNode → Nat
+  | .node p _ => p.kind.cls
+  | .uses _ _ => 0
+def dataOf (kids : List PNode) : List PNode := kids.filter (·.cls == 0)
+/-- the actions, then the notifications: compiled after the data children (and, in a container / list, after its augments) -/
+def opsOf (kids : List PNode) : List PNode := kids.filter (·.cls == 1) ++ kids.filter (·.cls == 2)
+
 /-- what `lys_compile_node_` settles before the node-type specific part: refines and deviations applied to the parsed
 statements, if-feature, config, status -/
 structure Head where
@@ -641,7 +649,8 @@ def compileNode (env : Env) : Nat → St → Cx → Nat → PNode → Except Err
         let en := enabled env.sch.features u.iffs || cx.grp
         let udis := !en && !cx.disabled
         let cx' := { cx with disabled := cx.disabled || !en, stack := u.grouping :: cx.stack }
-        match compileNodes env fuel st cx' uflags body with
+        -- grouping children, then its actions, then its notifications (three `lys_compile_uses_children` calls)
+        match compileNodes env fuel st cx' uflags (dataOf body ++ opsOf body) with
         | .error e => .error e
         | .ok (st, cs) =>
           let cs := cs.map fun c => (if udis then setDisabled else id) (addWhens u.whens c)
@@ -660,7 +669,7 @@ def compileNode (env : Env) : Nat → St → Cx → Nat → PNode → Except Err
         let body : Except Err (St × List CNode) :=
           if h.p.kind == .choice then compileChoiceKids env fuel st h.cxk [] kids
           else
-            match compileNodes env fuel st h.cxk 0 kids with
+            match compileNodes env fuel st h.cxk 0 (dataOf kids) with
             | .error e => .error e
             | .ok (st, cs) =>
               match connectAll [] cx.cur cs with
@@ -673,9 +682,16 @@ def compileNode (env : Env) : Nat → St → Cx → Nat → PNode → Except Err
           match applyAugs env fuel st h.cxk acc with
           | .error e => .error e
           | .ok (st, acc) =>
-            match finishInner h acc with
+            -- then its actions and notifications (`lys_compile_node_container` / `_list`)
+            match compileNodes env fuel st h.cxk 0 (opsOf kids) with
             | .error e => .error e
-            | .ok c => .ok (st, [c])
+            | .ok (st, cs2) =>
+              match connectAll acc cx.cur cs2 with
+              | .error e => .error e
+              | .ok acc =>
+                match finishInner h acc with
+                | .error e => .error e
+                | .ok c => .ok (st, [c])
 
 /-- children of one parsed parent, in statement order -/
 def compileNodes (env : Env) : Nat → St → Cx → Nat → List PNode → Except Err (St × List CNode)
@@ -754,7 +770,7 @@ def compileAug (env : Env) : Nat → St → Cx → PAug → Bool → List CNode 
         | .error e => .error e
         | .ok (st, cs) => .ok (st, cs, [])
       else
-        match compileNodes env fuel st cx' h.status kids with
+        match compileNodes env fuel st cx' h.status (dataOf kids ++ opsOf kids) with
         | .error e => .error e
         | .ok (st, cs) => .ok (st, [], cs)
     let _ := isUses
@@ -850,7 +866,7 @@ def checkGroupings (env : Env) (fuel : Nat) (st : St) (m : String) : List (Strin
 def compileModuleRaw (env : Env) (fuel : Nat) (m : Module) (augBy devBy : List String) : Except Err (List CNode) := do
   let devs ← ownDevs env.sch m.name devBy
   let st : St := { augs := ownAugs env.sch m.name augBy, devs := devs }
-  let (st, cs) ← compileNodes env fuel st { cur := m.name } 0 m.data
+  let (st, cs) ← compileNodes env fuel st { cur := m.name } 0 (dataOf m.data ++ opsOf m.data)
   let top ← connectAll [] m.name cs
   -- the groupings nobody instantiated are validated in a fake container (`lys_compile_grouping`)
   let st ← if (env.sch.mods.head?.map (·.name)) == some m.name then checkGroupings env fuel st m.name env.sch.groupings else pure st
